@@ -48,7 +48,10 @@ Record TreeG (w : world) (O : ovr) (K : option (N * N)) : Prop := mkTree {
   tO2 : forall r rs c cf co p, get_rs w r = Some rs -> aget c (r_local rs) = Some cf ->
         get_obj w cf = Some co -> bk O co p -> (aget p (r_local rs) = None \/ K = Some (r, p)) ->
         exists ls, aget p (r_orphans rs) = Some ls /\ In c ls;
-  tO3 : forall r rs p ls, get_rs w r = Some rs -> aget p (r_orphans rs) = Some ls -> NoDup ls
+  tO3 : forall r rs p ls, get_rs w r = Some rs -> aget p (r_orphans rs) = Some ls -> NoDup ls;
+  (* the Parent back-link: it names the object whose children list holds this object, and is None otherwise *)
+  tP : forall f o pf, get_obj w f = Some o ->
+       (o_plink o = Some pf <-> exists po, get_obj w pf = Some po /\ In (o_lid o, f) (o_children po))
 }.
 
 Definition Tree (w : world) : Prop := TreeG w no_ovr None.
@@ -76,14 +79,16 @@ Proof.
     split; [exact A1|]. split; [exact A2|]. exists cf, co. repeat split; auto; eapply bk_ext; eauto; apply A5.
   - intros. eapply (tO2 _ _ _ T); eauto. eapply bk_ext; eauto.
   - apply (tO3 _ _ _ T).
+  - apply (tP _ _ _ T).
 Qed.
 
 (* ---------- frames that keep every field Tree depends on ---------- *)
 Definition tcore (o : obj) : N * N * N * N * list (N * N) := (o_lid o, o_full o, o_region o, o_parent o, o_children o).
 Definition tridx (rs : rstate) : list (N * N) * list (N * list N) := (r_local rs, r_orphans rs).
 
+Definition tcoreP (o : obj) := (tcore o, o_plink o).
 Definition tframe (w w' : world) : Prop :=
-  (forall f, option_map tcore (get_obj w' f) = option_map tcore (get_obj w f)) /\
+  (forall f, option_map tcoreP (get_obj w' f) = option_map tcoreP (get_obj w f)) /\
   (forall r, option_map tridx (get_rs w' r) = option_map tridx (get_rs w r)).
 
 Lemma tframe_refl : forall w, tframe w w.
@@ -101,11 +106,16 @@ Lemma tridx_inj : forall a b, tridx a = tridx b ->
   True /\ r_local a = r_local b /\ r_orphans a = r_orphans b.
 Proof. unfold tridx. intros a b H. inversion H. auto. Qed.
 
+Lemma tframe_objP : forall w w' f o', tframe w w' -> get_obj w' f = Some o' ->
+  exists o, get_obj w f = Some o /\ tcore o = tcore o' /\ o_plink o = o_plink o'.
+Proof.
+  intros w w' f o' [H _] E. specialize (H f). rewrite E in H. simpl in H.
+  destruct (get_obj w f) as [o|]; simpl in H; [|discriminate]. exists o. unfold tcoreP in H. inversion H. split; [reflexivity|split; congruence].
+Qed.
 Lemma tframe_obj : forall w w' f o', tframe w w' -> get_obj w' f = Some o' ->
   exists o, get_obj w f = Some o /\ tcore o = tcore o'.
 Proof.
-  intros w w' f o' [H _] E. specialize (H f). rewrite E in H. simpl in H.
-  destruct (get_obj w f) as [o|]; simpl in H; [|discriminate]. exists o. split; congruence.
+  intros w w' f o' F E. destruct (tframe_objP _ _ _ _ F E) as (o & Eo & C & _). eauto.
 Qed.
 Lemma tframe_rs : forall w w' r rs', tframe w w' -> get_rs w' r = Some rs' ->
   exists rs, get_rs w r = Some rs /\ tridx rs = tridx rs'.
@@ -164,16 +174,23 @@ Proof.
   - intros r rs' p ls E1 E2.
     destruct (tframe_rs _ _ _ _ F E1) as (rs & Ers & Crs). pose proof (tridx_inj _ _ Crs) as (R1 & R2 & R3).
     rewrite <- R3 in E2. eapply (tO3 _ _ _ T); eauto.
+  - intros f o' pf E.
+    destruct (tframe_objP _ _ _ _ F E) as (o & Eo & Co & Po). pose proof (tcore_inj _ _ Co) as (P1 & P2 & P3 & P4 & P5).
+    rewrite <- Po, <- P1. rewrite (tP _ _ _ T f o pf Eo). split.
+    + intros (po & Epo & I). destruct (tframe_objP _ _ _ _ F' Epo) as (po' & Epo' & Cpo & _). apply tcore_inj in Cpo.
+      exists po'. split; [exact Epo'|]. destruct Cpo as (_ & _ & _ & _ & C5). rewrite C5. exact I.
+    + intros (po' & Epo' & I). destruct (tframe_objP _ _ _ _ F Epo') as (po & Epo & Cpo & _). apply tcore_inj in Cpo.
+      exists po. split; [exact Epo|]. destruct Cpo as (_ & _ & _ & _ & C5). rewrite C5. exact I.
 Qed.
 
 (* elementary tframes *)
-Lemma tframe_set_obj : forall w f o o', get_obj w f = Some o -> tcore o' = tcore o -> o_full o = f ->
+Lemma tframe_set_obj : forall w f o o', get_obj w f = Some o -> tcore o' = tcore o -> o_plink o' = o_plink o -> o_full o = f ->
   tframe w (set_obj w o').
 Proof.
-  intros w f o o' E C K. pose proof (tcore_inj _ _ C) as (_ & Cf & _).
+  intros w f o o' E C P K. pose proof (tcore_inj _ _ C) as (_ & Cf & _).
   split; intros; [|reflexivity].
   rewrite get_obj_set_obj. destruct (f0 =? o_full o') eqn:Q; [|reflexivity].
-  apply N.eqb_eq in Q. subst f0. rewrite Cf, K, E. simpl. congruence.
+  apply N.eqb_eq in Q. subst f0. rewrite Cf, K, E. simpl. unfold tcoreP. congruence.
 Qed.
 Lemma tframe_set_rs : forall w r rs rs', get_rs w r = Some rs -> tridx rs' = tridx rs -> tframe w (set_rs w r rs').
 Proof.
@@ -194,6 +211,8 @@ Lemma update_properties_tcore : forall o p o' c, update_properties o p = (o', c)
   tcore o' = (dflt (p_lid p) (o_lid o), o_full o, dflt (p_region p) (o_region o), dflt (p_parent p) (o_parent o),
               o_children o).
 Proof. intros o p o' c H. unfold update_properties in H. inversion H; subst. reflexivity. Qed.
+Lemma update_properties_plink : forall o p o' c, update_properties o p = (o', c) -> o_plink o' = o_plink o.
+Proof. intros o p o' c H. unfold update_properties in H. inversion H; subst. reflexivity. Qed.
 
 Lemma update_existing_same_tframe : forall w f p k w' o, keys_ok w -> get_obj w f = Some o ->
   dflt (p_region p) (o_region o) = o_region o -> dflt (p_lid p) (o_lid o) = o_lid o ->
@@ -204,7 +223,7 @@ Proof.
   rewrite Hr, Hl, Hp in H. rewrite !N.eqb_refl in H. cbn [negb andb bind] in H. rewrite Eo in H. cbn [bind] in H.
   destruct (update_properties o p) as [o2 ch1] eqn:Eu. pose proof (update_properties_tcore _ _ _ _ Eu) as C.
   rewrite Hr, Hl, Hp in C. cbn [bind] in H.
-  assert (F : tframe w (set_obj w o2)) by (eapply (tframe_set_obj w f o); [exact Eo|exact C|eauto]).
+  assert (F : tframe w (set_obj w o2)) by (eapply (tframe_set_obj w f o); [exact Eo|exact C|exact (update_properties_plink _ _ _ _ Eu)|eauto]).
   eapply tframe_trans; [exact F|].
   match type of H with (if ?b then _ else _) = _ => destruct b end.
   - bind_inv H. destruct (region_state (set_obj w o2) (o_region o0)); inversion H; [apply tframe_set_futs|apply tframe_refl].
@@ -259,6 +278,10 @@ Proof.
   - intros r' rs p ls E1 E2. destruct (r' =? r) eqn:Q.
     + rewrite (RE _ _ E1 Q) in E2. discriminate.
     + eapply (tO3 _ _ _ T); eauto.
+  - intros f o pf E. destruct (GS _ _ E) as [E0 Q]. rewrite (tP _ _ _ T f o pf E0). split.
+    + intros (po & Epo & I0). exists po. split; [|exact I0]. apply GK; [exact Epo|].
+      destruct (tC1 _ _ _ T _ _ _ _ Epo I0) as (co & rs & A1 & A2 & A3 & _). rewrite E0 in A1. inversion A1; subst co. congruence.
+    + intros (po & Epo & I0). destruct (GS _ _ Epo) as [Epo0 _]. eauto.
 Qed.
 
 Definition quiet_kind (e : event) : Prop :=
@@ -452,6 +475,29 @@ Proof.
       destruct (get_obj w g); reflexivity.
 Qed.
 
+(* the Parent reference after _unparent_object *)
+Lemma unparent_plink : forall w r f q w' o rs, keys_ok w -> get_obj w f = Some o -> get_rs w r = Some rs ->
+  unparent_object w r f q = Some w' ->
+  forall g, option_map o_plink (get_obj w' g) = if g =? f then Some None else option_map o_plink (get_obj w g).
+Proof.
+  intros w r f q w' o rs K Eo Ers H. unfold unparent_object in H. rewrite Eo, Ers in H. cbn [bind] in H.
+  pose proof (K _ _ Eo) as Kf.
+  set (w1 := set_obj w (with_plink o None)) in *.
+  assert (G1 : forall g, option_map o_plink (get_obj w1 g) = if g =? f then Some None else option_map o_plink (get_obj w g)).
+  { intros g. unfold w1. rewrite get_obj_set_obj. cbn [o_full with_plink]. rewrite Kf. destruct (g =? f); reflexivity. }
+  destruct (q =? 0); [inversion H; subst w'; exact G1|].
+  set (w2 := set_rs w1 r (untrack_orphan rs (o_lid o) q)) in *.
+  destruct (aget q (r_local rs)) as [pf|]; [|inversion H; subst w'; exact G1].
+  destruct (get_obj w2 pf) as [po|] eqn:Epo; [|discriminate].
+  assert (Epo1 : get_obj w1 pf = Some po) by exact Epo.
+  assert (Kpo : o_full po = pf).
+  { unfold w1 in Epo1. rewrite get_obj_set_obj in Epo1. cbn [o_full with_plink] in Epo1. rewrite Kf in Epo1.
+    destruct (pf =? f) eqn:Q; [inversion Epo1; subst po; cbn; apply N.eqb_eq in Q; congruence|eauto]. }
+  destruct (mem (o_lid o) (map fst (o_children po))); inversion H; subst w'; clear H; [|exact G1].
+  intros g. rewrite get_obj_set_obj. cbn [o_full with_children]. rewrite Kpo. destruct (g =? pf) eqn:Q; [|apply G1].
+  apply N.eqb_eq in Q. subst g. rewrite <- G1. rewrite Epo1. reflexivity.
+Qed.
+
 Definition ins_child (h : bool) (e : N * N) (ch : list (N * N)) : list (N * N) := if h then e :: ch else ch ++ [e].
 
 Lemma parent_spec : forall w r f h w' o rs, keys_ok w -> get_obj w f = Some o -> get_rs w r = Some rs ->
@@ -551,6 +597,7 @@ Proof.
     split; [exact A1|]. split; [exact A2|]. exists cf, co. split; [exact A3|]. split; [exact A4|apply (H _ _ A4); exact A5].
   - intros r rs c cf co p E1 E2 E3 B. apply (H _ _ E3) in B. eapply (tO2 _ _ _ T); eauto.
   - apply (tO3 _ _ _ T).
+  - apply (tP _ _ _ T).
 Qed.
 
 (* ---------- _unparent_object detaches the object ---------- *)
@@ -673,6 +720,36 @@ Proof.
         apply remove1_NoDup. eapply (tO3 _ _ _ T); eauto.
       * eapply (tO3 _ _ _ T); eauto.
     + rewrite (Rsame eq_refl) in E2. eapply (tO3 _ _ _ T); eauto.
+  - (* P *)
+    intros g a' pf E.
+    destruct (FW _ _ E) as (a & Ea & L1 & L2 & L3 & L4 & L5).
+    pose proof (unparent_plink _ _ _ _ _ _ _ Kw Eo Ers H g) as Pg. rewrite E, Ea in Pg. cbn in Pg.
+    assert (CHF : forall pf' po', get_obj w' pf' = Some po' -> forall c, In (c, f) (o_children po') -> False).
+    { intros pf' po' E' c I. destruct (FW _ _ E') as (og & Eog & M1 & M2 & M3 & M4 & M5). rewrite M5 in I.
+      assert (I0 : In (c, f) (o_children og)) by (destruct (is_parent_key rs q pf'); [eapply remove1k_In; exact I|exact I]).
+      destruct (tC1 _ _ _ T _ _ _ _ Eog I0) as (co & rs0 & A1 & A2 & A3 & A4 & A5 & A6 & A7).
+      rewrite Eo in A1. inversion A1; subst co.
+      destruct A4 as [A4 A4']. rewrite Hq in A4. inversion A4 as [Hlq].
+      assert (Hrr : o_region og = r) by congruence. rewrite Hrr, Ers in A5. inversion A5; subst rs0.
+      assert (Pk : is_parent_key rs q pf' = true).
+      { unfold is_parent_key. subst q. rewrite A7, N.eqb_refl. apply N.eqb_neq in A4'. rewrite A4'. reflexivity. }
+      rewrite Pk in I. apply In_fst in I. rewrite <- A2 in I.
+      destruct (remove1k_NoDup _ (o_lid o) _ (tC3 _ _ _ T _ _ Eog)) as [_ Hn]. contradiction. }
+    destruct (g =? f) eqn:Qg.
+    + apply N.eqb_eq in Qg. subst g. split; [intros Hs; inversion Pg; congruence|].
+      intros (po' & Epo' & I). exfalso. eapply CHF; eauto.
+    + apply N.eqb_neq in Qg. assert (Pa : o_plink a' = o_plink a) by congruence. rewrite Pa, L1.
+      rewrite (tP _ _ _ T g a pf Ea). split.
+      * intros (po & Epo & I). destruct (BW _ _ Epo) as (po' & Epo' & M1 & M2 & M3 & M4 & M5).
+        exists po'. split; [exact Epo'|]. rewrite M5. destruct (is_parent_key rs q pf) eqn:Pk; [|exact I].
+        apply remove1k_In_neq; [exact I|]. intro Hc.
+        destruct (tC1 _ _ _ T _ _ _ _ Epo I) as (co & rs0 & A1 & A2 & A3 & A4 & A5 & A6 & A7).
+        unfold is_parent_key in Pk. apply andb_prop in Pk. destruct Pk as [_ Pk].
+        destruct (aget q (r_local rs)) as [pf'|] eqn:Eq; [|discriminate]. apply N.eqb_eq in Pk. subst pf'.
+        destruct (W2 _ _ _ _ Ers Eq) as (o1 & Eo1 & _ & Hr1). rewrite Epo in Eo1. inversion Eo1; subst o1.
+        rewrite Hr1, Ers in A5. inversion A5; subst rs0. rewrite Hc, Eidx in A6. congruence.
+      * intros (po' & Epo' & I). destruct (FW _ _ Epo') as (po & Epo & M1 & M2 & M3 & M4 & M5). rewrite M5 in I.
+        exists po. split; [exact Epo|]. destruct (is_parent_key rs q pf); [eapply remove1k_In; exact I|exact I].
 Qed.
 
 Lemma ins_child_In : forall h e ch x, In x (ins_child h e ch) <-> x = e \/ In x ch.
@@ -692,6 +769,29 @@ Lemma ins_child_NoDup : forall h c v ch, NoDup (map fst ch) -> ~ In c (map fst c
 Proof.
   intros h c v ch N0 Hn. unfold ins_child. destruct h; simpl; [constructor; assumption|].
   rewrite map_app. simpl. apply app_one_NoDup; assumption.
+Qed.
+
+(* the Parent reference after _parent_object *)
+Lemma parent_plink : forall w r f h w' o rs, keys_ok w -> get_obj w f = Some o -> get_rs w r = Some rs ->
+  parent_object w r f h = Some w' -> o_parent o <> 0 ->
+  forall g, option_map o_plink (get_obj w' g) =
+            if g =? f then Some (aget (o_parent o) (r_local rs)) else option_map o_plink (get_obj w g).
+Proof.
+  intros w r f h w' o rs K Eo Ers H P0. unfold parent_object in H. rewrite Eo, Ers in H. cbn [bind] in H.
+  pose proof (K _ _ Eo) as Kf. apply N.eqb_neq in P0. rewrite P0 in H.
+  destruct (aget (o_parent o) (r_local rs)) as [pf|] eqn:Ep.
+  - bind_inv H. rename o0 into po. destruct (mem (o_lid o) (map fst (o_children po))); [discriminate|].
+    bind_inv H. rename o0 into o1. inversion H; subst w'; clear H. pose proof (K _ _ E) as Kpf.
+    set (ch := if h then (o_lid o, f) :: o_children po else o_children po ++ [(o_lid o, f)]) in *.
+    assert (G1 : forall g, get_obj (set_obj w (with_children po ch)) g = if g =? pf then Some (with_children po ch) else get_obj w g).
+    { intros g'. rewrite get_obj_set_obj. cbn [o_full with_children]. rewrite Kpf. reflexivity. }
+    assert (Ko1 : o_full o1 = f).
+    { rewrite G1 in E0. destruct (f =? pf) eqn:Q; [inversion E0; subst o1; cbn; apply N.eqb_eq in Q; congruence|].
+      rewrite Eo in E0. inversion E0; subst o1. exact Kf. }
+    intros g. rewrite get_obj_set_obj. cbn [o_full with_plink]. rewrite Ko1. destruct (g =? f); [reflexivity|].
+    rewrite G1. destruct (g =? pf) eqn:Q; [|reflexivity]. apply N.eqb_eq in Q. subst g. rewrite E. reflexivity.
+  - inversion H; subst w'; clear H. intros g. rewrite get_obj_set_obj. cbn [o_full with_plink]. rewrite Kf.
+    destruct (g =? f); reflexivity.
 Qed.
 
 (* ---------- _parent_object attaches a detached, indexed object ---------- *)
@@ -775,6 +875,28 @@ Proof.
         eapply (tO2 _ _ _ T); eauto.
     + (* O3 *)
       intros r0 rs0 p ls E1 E2. rewrite R in E1. eapply (tO3 _ _ _ T); eauto.
+    + (* P *)
+      intros g a' pf' E. destruct (FW _ _ E) as (a & Ea & L1 & L2 & L3 & L4 & L5).
+      pose proof (parent_plink _ _ _ _ _ _ _ Kw Eo Ers H P0 g) as Pg. rewrite E, Ea, Ep in Pg. cbn in Pg.
+      assert (NOF : forall pfx pox c, get_obj w pfx = Some pox -> ~ In (c, f) (o_children pox)).
+      { intros pfx pox c Ex Ix. destruct (tC1 _ _ _ T _ _ _ _ Ex Ix) as (co & rsx & A1 & A2 & A3 & A4 & _).
+        rewrite Eo in A1. inversion A1; subst co. exact (NB _ A4). }
+      destruct (g =? f) eqn:Qg.
+      * apply N.eqb_eq in Qg. subst g. rewrite Eo in Ea. inversion Ea; subst a.
+        assert (Pa : o_plink a' = Some pf) by congruence. rewrite Pa, L1. split.
+        -- intros Hs. inversion Hs; subst pf'. destruct (BW _ _ Epo) as (po' & Epo' & M1 & M2 & M3 & M4 & M5).
+           exists po'. split; [exact Epo'|]. rewrite M5, N.eqb_refl. apply ins_child_In. left. reflexivity.
+        -- intros (po' & Epo' & I). destruct (FW _ _ Epo') as (og & Eog & M1 & M2 & M3 & M4 & M5). rewrite M5 in I.
+           destruct (pf' =? pf) eqn:Q.
+           ++ apply N.eqb_eq in Q. congruence.
+           ++ exfalso. eapply NOF; eauto.
+      * assert (Pa : o_plink a' = o_plink a) by congruence. rewrite Pa, L1. rewrite (tP _ _ _ T g a pf' Ea).
+        apply N.eqb_neq in Qg. split.
+        -- intros (pox & Epox & I). destruct (BW _ _ Epox) as (po' & Epo' & M1 & M2 & M3 & M4 & M5).
+           exists po'. split; [exact Epo'|]. rewrite M5. destruct (pf' =? pf); [apply ins_child_In; right; exact I|exact I].
+        -- intros (po' & Epo' & I). destruct (FW _ _ Epo') as (og & Eog & M1 & M2 & M3 & M4 & M5). rewrite M5 in I.
+           exists og. split; [exact Eog|]. destruct (pf' =? pf); [|exact I]. apply ins_child_In in I. destruct I as [I|I]; [|exact I].
+           inversion I. congruence.
   - (* parent unknown: the object becomes an orphan *)
     destruct (S2 P0 eq_refl) as (R & G). clear S0 S1 S2.
     assert (G' : forall g, option_map tcore (get_obj w' g) = option_map (fun og => with_ch og ((fun _ x => o_children x) g og)) (get_obj w g)).
@@ -865,6 +987,18 @@ Proof.
         destruct (tO1 _ _ _ T _ _ _ _ _ Ers El Il) as (_ & _ & cf & co & A3 & A4 & A5).
         fold l in Eidx. rewrite Eidx in A3. inversion A3; subst cf. rewrite Eo in A4. inversion A4; subst co. exact (NB _ A5).
       * constructor; [simpl; tauto|constructor].
+    + (* P *)
+      intros g a' pf' E. destruct (FW _ _ E) as (a & Ea & L1 & L2 & L3 & L4 & L5).
+      pose proof (parent_plink _ _ _ _ _ _ _ Kw Eo Ers H P0 g) as Pg. rewrite E, Ea in Pg. fold P in Pg. rewrite Ep in Pg. cbn in Pg.
+      destruct (g =? f) eqn:Qg.
+      * apply N.eqb_eq in Qg. subst g. split; [intros Hs; inversion Pg; congruence|].
+        intros (po' & Epo' & I). exfalso. destruct (FW _ _ Epo') as (og & Eog & M1 & M2 & M3 & M4 & M5). rewrite M5 in I.
+        destruct (tC1 _ _ _ T _ _ _ _ Eog I) as (co & rs0 & A1 & A2 & A3 & A4 & _).
+        rewrite Eo in A1. inversion A1; subst co. exact (NB _ A4).
+      * assert (Pa : o_plink a' = o_plink a) by congruence. rewrite Pa, L1. rewrite (tP _ _ _ T g a pf' Ea). split.
+        -- intros (pox & Epox & I). destruct (BW _ _ Epox) as (po' & Epo' & M1 & M2 & M3 & M4 & M5).
+           exists po'. split; [exact Epo'|]. rewrite M5. exact I.
+        -- intros (po' & Epo' & I). destruct (FW _ _ Epo') as (og & Eog & M1 & M2 & M3 & M4 & M5). rewrite M5 in I. eauto.
 Qed.
 
 (* ---------- Base is a frame property ---------- *)
@@ -887,9 +1021,10 @@ Lemma TreeG_ocorr : forall w O K w' O',
              | None, None => True
              | _, _ => False
              end) ->
+  (forall g, option_map o_plink (get_obj w' g) = option_map o_plink (get_obj w g)) ->
   TreeG w O K -> TreeG w' O' K.
 Proof.
-  intros w O K w' O' R G T.
+  intros w O K w' O' R G GP T.
   assert (FW : forall g b, get_obj w' g = Some b -> exists a, get_obj w g = Some a /\ o_lid a = o_lid b /\ o_full a = o_full b /\
                o_region a = o_region b /\ o_children a = o_children b /\ (forall p, bk O a p <-> bk O' b p)).
   { intros g b E. specialize (G g). rewrite E in G. destruct (get_obj w g) as [a|]; [eauto|contradiction]. }
@@ -913,15 +1048,25 @@ Proof.
   - intros r rs c cf co' p E1 E2 E3 B Hn. rewrite R in E1.
     destruct (FW _ _ E3) as (co & Eco & M1 & M2 & M3 & M4 & M5). eapply (tO2 _ _ _ T); eauto. apply M5. exact B.
   - intros r rs p ls E1 E2. rewrite R in E1. eapply (tO3 _ _ _ T); eauto.
+  - intros f b pf E. destruct (FW _ _ E) as (a & Ea & L1 & L2 & L3 & L4 & _).
+    pose proof (GP f) as Pf. rewrite E, Ea in Pf. cbn in Pf. assert (Pa : o_plink b = o_plink a) by congruence.
+    rewrite Pa, <- L1. rewrite (tP _ _ _ T f a pf Ea). split.
+    + intros (po & Epo & I). destruct (BW _ _ Epo) as (po' & Epo' & M1 & M2 & M3 & M4 & _).
+      exists po'. split; [exact Epo'|]. rewrite <- M4. exact I.
+    + intros (po' & Epo' & I). destruct (FW _ _ Epo') as (po & Epo & M1 & M2 & M3 & M4 & _).
+      exists po. split; [exact Epo|]. rewrite M4. exact I.
 Qed.
 
 (* the object's fields other than lid / full / region / children change; it stays bookkept under its old parent *)
 Lemma TreeG_set_fields : forall w O K f o o', Base w -> TreeG w O K -> get_obj w f = Some o -> O f = None ->
   o_lid o' = o_lid o -> o_full o' = o_full o -> o_region o' = o_region o -> o_children o' = o_children o ->
+  o_plink o' = o_plink o ->
   TreeG (set_obj w o') (oset O f (Some (o_parent o))) K.
 Proof.
-  intros w O K f o o' [Kw _] T Eo HO H1 H2 H3 H4. pose proof (Kw _ _ Eo) as Kf.
-  eapply TreeG_ocorr; [| |exact T]; [reflexivity|].
+  intros w O K f o o' [Kw _] T Eo HO H1 H2 H3 H4 H5. pose proof (Kw _ _ Eo) as Kf.
+  eapply TreeG_ocorr; [| | |exact T]; [reflexivity| |].
+  2:{ intros g. rewrite get_obj_set_obj, H2, Kf. destruct (g =? f) eqn:Q; [|reflexivity].
+      apply N.eqb_eq in Q. subst g. rewrite Eo. cbn. congruence. }
   intros g. rewrite get_obj_set_obj. rewrite H2, Kf. destruct (g =? f) eqn:Q.
   - apply N.eqb_eq in Q. subst g. rewrite Eo.
     split; [congruence|]. split; [congruence|]. split; [congruence|]. split; [congruence|]. intros p. split.
@@ -935,9 +1080,10 @@ Qed.
 
 (* a brand-new object: in the full-id lookup only, detached, no children *)
 Lemma TreeG_new_obj : forall w O K o, Base w -> TreeG w O K -> get_obj w (o_full o) = None -> o_children o = [] ->
+  o_plink o = None ->
   TreeG (set_obj w o) (oset O (o_full o) None) K.
 Proof.
-  intros w O K o [Kw W2] T Hn Hc.
+  intros w O K o [Kw W2] T Hn Hc Hpl.
   assert (GO : forall g a, get_obj w g = Some a -> get_obj (set_obj w o) g = Some a /\ g <> o_full o).
   { intros g a E. rewrite get_obj_set_obj. destruct (g =? o_full o) eqn:Q; [apply N.eqb_eq in Q; congruence|].
     apply N.eqb_neq in Q. auto. }
@@ -966,6 +1112,13 @@ Proof.
     destruct (GN _ _ E3) as [[-> ->]|[Hne E3']]; [destruct (bk_oset_none O (o_full o) o p eq_refl B)|].
     eapply (tO2 _ _ _ T); eauto. apply BKo in B; [exact B|]. rewrite (Kw _ _ E3'). exact Hne.
   - intros r rs p ls E1 E2. rewrite get_rs_set_obj in E1. eapply (tO3 _ _ _ T); eauto.
+  - intros g a pf E. destruct (GN _ _ E) as [[-> ->]|[Hne E0]].
+    + rewrite Hpl. split; [discriminate|]. intros (po & Epo & I). exfalso.
+      destruct (GN _ _ Epo) as [[-> ->]|[_ Epo0]]; [rewrite Hc in I; destruct I|].
+      destruct (tC1 _ _ _ T _ _ _ _ Epo0 I) as (co & rs & A1 & _). congruence.
+    + rewrite (tP _ _ _ T g a pf E0). split.
+      * intros (po & Epo & I). destruct (GO _ _ Epo) as [Epo' _]. eauto.
+      * intros (po & Epo & I). destruct (GN _ _ Epo) as [[-> ->]|[_ Epo0]]; [rewrite Hc in I; destruct I|]. eauto.
 Qed.
 
 (* ---------- indexing a detached object: its local id becomes the open key ---------- *)
@@ -1036,6 +1189,7 @@ Proof.
     + rewrite L' in Hn. destruct ((r0 =? r) && (p =? l)); [discriminate|exact Hn].
     + inversion Hn; subst. assert (rs0 = rs) by congruence. subst rs0. exact Hfree.
   - intros r0 rs' p ls E1 E2. destruct (LOC _ _ E1) as (rs0 & Ers0 & Lo & L'). rewrite Lo in E2. eapply (tO3 _ _ _ T); eauto.
+  - intros fP aP pfP EP. apply (tP _ _ _ T fP aP pfP EP).
 Qed.
 
 (* ---------- collect_orphans closes the open key; the former orphans are detached ---------- *)
@@ -1141,6 +1295,7 @@ Proof.
     assert (In cf fs) by (apply fulls_In; eauto). apply mem_false in M. contradiction.
   - intros r0 rs1 p ls0 E1 E2. destruct (RS _ _ E1) as (rs0 & Ers0 & L1 & Lo). rewrite Lo in E2.
     destruct ((r0 =? r) && (p =? l)); [discriminate|]. eapply (tO3 _ _ _ T); eauto.
+  - intros fP aP pfP EP. apply (tP _ _ _ T fP aP pfP EP).
 Qed.
 
 (* ---------- what _parent_object leaves alone ---------- *)
@@ -1328,10 +1483,10 @@ Qed.
 
 (* ---------- a new object (ObjectUpdate for an unknown full id) ---------- *)
 Lemma track_new_Tree : forall w r o w', Idx w -> Tree w -> get_obj w (o_full o) = None -> o_region o = r ->
-  o_children o = [] -> region_state w r <> None -> lid_unique w r (o_lid o) (o_full o) -> o_parent o <> o_lid o ->
+  o_children o = [] -> o_plink o = None -> region_state w r <> None -> lid_unique w r (o_lid o) (o_full o) -> o_parent o <> o_lid o ->
   track_new w r o = Some w' -> Tree w'.
 Proof.
-  intros w r o w' I T Hn Hr Hc Hrs Hu Hself H. pose proof I as (K & A & B). unfold track_new in H.
+  intros w r o w' I T Hn Hr Hc Hpl Hrs Hu Hself H. pose proof I as (K & A & B). unfold track_new in H.
   bind_inv H. rename w0 into w1. bind_inv H.
   destruct (region_state w r) as [rs|] eqn:Ers; [|congruence]. apply region_state_some in Ers. destruct Ers as [Ers Ht].
   assert (Hfree : aget (o_lid o) (r_local rs) = None).
@@ -1339,7 +1494,7 @@ Proof.
     pose proof (Hu _ _ Ers Eg) as ->. destruct (A _ _ _ _ Ers Eg) as (og & Eog & _). congruence. }
   assert (Eo : get_obj (set_obj w o) (o_full o) = Some o) by (rewrite get_obj_set_obj, N.eqb_refl; reflexivity).
   assert (T0 : TreeG (set_obj w o) (oset no_ovr (o_full o) None) None).
-  { apply TreeG_new_obj; [apply Idx_Base; exact I|exact T|exact Hn|exact Hc]. }
+  { apply TreeG_new_obj; [apply Idx_Base; exact I|exact T|exact Hn|exact Hc|exact Hpl]. }
   assert (B0 : Base (set_obj w o)) by (eapply IdxX_Base; apply IdxX_new; eauto).
   pose proof (track_object_Tree _ _ _ _ _ _ B0 T0 Eo Hr Ers Hfree Hself E) as T1.
   destruct (region_state w1 (o_region o0)); inversion H; subst; [|exact T1].
@@ -1484,6 +1639,7 @@ Proof.
     + eapply (tO2 _ _ _ T); eauto.
     + inversion Hn; subst. exfalso. eapply Hno; eauto.
   - apply (tO3 _ _ _ T).
+  - apply (tP _ _ _ T).
 Qed.
 
 (* TreeG only reads the world through get_obj / get_rs *)
@@ -1570,6 +1726,7 @@ Proof.
       destruct (tO1 _ _ _ T _ _ _ _ _ Ers El Il) as (_ & _ & cf' & a & A3 & A4 & A5).
       rewrite Ec in A3. inversion A3; subst cf'. rewrite Eco in A4. inversion A4; subst a. exact (NB _ A5).
     + constructor; [simpl; tauto|constructor].
+  - intros fP aP pfP EP. apply (tP _ _ _ T fP aP pfP EP).
 Qed.
 
 (* ---------- second loop of untrack_object: the detached children become orphans of l ---------- *)
@@ -1668,6 +1825,7 @@ Proof.
     eapply (tO2 _ _ _ T); eauto. destruct ((r0 =? r) && (p =? l)) eqn:Qp; [|left; exact Hn].
     right. apply andb_prop in Qp. destruct Qp as [Q1 Q2]. apply N.eqb_eq in Q1, Q2. subst. reflexivity.
   - intros r0 rs' p ls E1 E2. destruct (LOC _ _ E1) as (rs0 & Ers0 & Lo & L'). rewrite Lo in E2. eapply (tO3 _ _ _ T); eauto.
+  - intros fP aP pfP EP. apply (tP _ _ _ T fP aP pfP EP).
 Qed.
 
 (* ---------- dropping empty orphan lists is invisible to TreeG ---------- *)
@@ -1704,6 +1862,8 @@ Proof.
     + rewrite El in On. inversion On; subst ls. destruct Il.
   - intros r0 rs' p ls E1 E2. destruct (RF _ _ E1) as (rs0 & E0 & L0 & Or). destruct (Or p) as [Oe|[On _]]; [|congruence].
     rewrite Oe in E2. eapply (tO3 _ _ _ T); eauto.
+  - intros f a pf E. rewrite GO in E. rewrite (tP _ _ _ T f a pf E).
+    split; intros (po & Epo & I); exists po; (split; [|exact I]); [rewrite GO; exact Epo|rewrite <- GO; exact Epo].
 Qed.
 
 (* ---------- _unparent_object of an object that is already detached changes nothing Tree can see ---------- *)
